@@ -15,53 +15,88 @@ callback does: replies once or several times, only adds events, does nothing, pa
 anything before or after replying, uses the wrong resource type, sends pre-responses -/
 theorem one_reply_per_query_request (typ : Nat) (payload : Payload) (script : List QAct) :
     (responses (handle typ payload script)).length = 1 := by
-  sorry
+  cases payload with
+  | bad => rfl
+  | empty => rfl
+  | noQuery => rfl
+  | ok =>
+    have key : ∀ s : RSt, RInv s →
+        (responses (if s.replied then s.out
+          else if s.nEvents = 0 then s.out ++ [.events 0]
+          else if s.eventsOk then s.out ++ [.events s.nEvents]
+          else s.out ++ [.error internal])).length = 1 := by
+      intro s hs
+      unfold RInv at hs
+      cases hr : s.replied with
+      | true => simpa [responses, hr] using hs
+      | false =>
+        simp only [hr, Bool.false_eq_true, if_false] at hs ⊢
+        split
+        · simp [responses, List.filter_append, hs]; rfl
+        · split <;> (simp [responses, List.filter_append, hs]; rfl)
+    have hinv := rinv_runQ typ script {} rinv_init
+    simp only [handle]
+    cases hq : runQ typ {} script with
+    | cont s => rw [hq] at hinv; exact key s hinv
+    | panic s p =>
+      rw [hq] at hinv
+      exact key _ (rinv_reply s _ (by cases p <;> rfl) hinv).1
 
 /-- **a missing query or a malformed payload is answered with an error** and the callback is
 not involved -/
 theorem missing_query_is_error (typ : Nat) (payload : Payload) (script : List QAct) (h : payload ≠ .ok) :
     handle typ payload script = [.error internal] := by
-  sorry
+  cases payload with
+  | ok => exact absurd rfl h
+  | bad => rfl
+  | empty => rfl
+  | noQuery => rfl
 
 /-- a callback that only adds events gets the accumulated events as the response; one that does
 nothing gets the empty event list -/
 theorem events_response (typ : Nat) (script : List QAct) (s : RSt) (h : runQ typ {} script = .cont s)
     (hr : s.replied = false) (hok : s.eventsOk = true) :
     handle typ .ok script = s.out ++ [.events s.nEvents] := by
-  sorry
+  simp only [handle, h, hr, hok, Bool.false_eq_true, if_false, if_true]
+  split
+  · next h0 => rw [h0]
+  · rfl
 
 /-- **the callback is invoked with nil exactly once**: at most once over any history … -/
 theorem nil_at_most_once (typ : Nat) (evs : List Ev) : (run typ {} evs).1.nilCalls ≤ 1 := by
-  sorry
+  have := (sinv_run typ evs {} sinv_init).1
+  rw [this]; split <;> simp
 
 /-- … and exactly once as soon as the expiry has happened -/
 theorem nil_once (typ : Nat) (evs : List Ev) (h : Ev.expire ∈ evs) : (run typ {} evs).1.nilCalls = 1 := by
-  sorry
+  have := (sinv_run typ evs {} sinv_init).1
+  rw [this, run_expire_mem typ evs {} h]; rfl
 
 /-- **never again afterwards**: after the expiry no request reaches the callback and nothing
 is published, whatever arrives (late requests delivered after the drain was requested) -/
 theorem nothing_after_nil (typ : Nat) (s : St) (h : s.expired = true) (evs : List Ev) :
     (run typ s evs).1 = s ∧ ∀ r ∈ (run typ s evs).2, r = [] := by
-  sorry
+  exact run_expired typ s h evs
 
 /-- **everything the query event allocated is released** at the expiry: subscription gone,
 listener goroutine gone -/
 theorem released (typ : Nat) (evs : List Ev) (h : Ev.expire ∈ evs) :
     (run typ {} evs).1.listener = false ∧ (run typ {} evs).1.subscribed = false := by
-  sorry
+  exact (sinv_run typ evs {} sinv_init).2 (run_expire_mem typ evs {} h)
 
 /-- **a failed subscription calls back with nil once and publishes nothing** (and later events find
 the query event already expired) -/
 theorem failed_subscribe (typ : Nat) (evs : List Ev) :
     failedSubscribe.nilCalls = 1 ∧ failedSubscribe.listener = false ∧
     (run typ failedSubscribe evs).1 = failedSubscribe ∧ ∀ r ∈ (run typ failedSubscribe evs).2, r = [] := by
-  sorry
+  have := run_expired typ failedSubscribe rfl evs
+  exact ⟨rfl, rfl, this.1, this.2⟩
 
 /-- while active, each request is handled on its own: the replies of a history are the replies of
 its requests up to the expiry -/
 theorem active_requests_answered (typ : Nat) (s : St) (h : s.expired = false) (payload : Payload) (script : List QAct) :
     (step typ s (.request payload script)).2 = handle typ payload script := by
-  sorry
+  simp [step, h]
 
 /-! ## non-vacuity -/
 example : handle 2 .ok [.add 0 true, .remove 1, .timeout 100] = [.pre 100, .events 2] := by decide
